@@ -114,6 +114,7 @@ type ErrDef struct {
 type Service struct {
 	Name       string     `json:"name"`
 	Path       string     `json:"path,omitempty"`
+	Parent     string     `json:"parent,omitempty"` // HTTP parent service (Parent DSL)
 	Errors     []*ErrDef  `json:"errors,omitempty"`
 	HTTPErrors []*ErrResp `json:"http_errors,omitempty"`
 	Security   []Req      `json:"security,omitempty"`
